@@ -667,27 +667,30 @@ Proof.
   intro W. split; [apply heap_extends_halloc; auto|split; [apply fresh_ok_halloc; auto|reflexivity]].
 Qed.
 
-(* how the result of copy_or_ref relates to its argument *)
-Inductive copy_rel (h h' : heap) : loc -> loc -> Prop :=
-| cr_basic l c v : hget h l = Some v -> is_basic v = true ->
-                   hnext h <= c -> hget h' c = Some v -> copy_rel h h' l c
-| cr_comp l v : hget h l = Some v -> is_composite v = true -> copy_rel h h' l l
-| cr_any l c t i i' : hget h l = Some (HAny t i) ->
-                      hnext h <= c -> hget h' c = Some (HAny t i') -> c <> i' ->
-                      copy_rel h h' i i' -> copy_rel h h' l c.
+(* how the result c of copy_or_ref relates to its argument l: [N] is hnext of the heap
+   before the call (cells >= N did not exist), [h'] the heap after it (which extends the
+   heap before: every old cell is unchanged) *)
+Inductive copy_rel (N : positive) (h' : heap) : loc -> loc -> Prop :=
+| cr_basic l c v : hget h' l = Some v -> is_basic v = true ->
+                   N <= c -> hget h' c = Some v -> copy_rel N h' l c
+| cr_comp l v : hget h' l = Some v -> is_composite v = true -> copy_rel N h' l l
+| cr_any l c t i i' : hget h' l = Some (HAny t i) ->
+                      N <= c -> hget h' c = Some (HAny t i') -> c <> i' ->
+                      copy_rel N h' i i' -> copy_rel N h' l c.
 
-Lemma copy_rel_mono h h1 h2 l c :
-  heap_extends h1 h2 -> copy_rel h h1 l c -> copy_rel h h2 l c.
+Lemma copy_rel_mono N N' h1 h2 l c :
+  N' <= N -> heap_extends h1 h2 -> copy_rel N h1 l c -> copy_rel N' h2 l c.
 Proof.
-  intros [_ E] C. induction C.
-  - eapply cr_basic; eauto.
+  intros LN [_ E] C. induction C.
+  - eapply cr_basic; eauto. lia.
   - eapply cr_comp; eauto.
-  - eapply cr_any; eauto.
+  - eapply cr_any; eauto. lia.
 Qed.
 
 Lemma copy_or_ref_spec fuel : forall l s r s',
   copy_or_ref fuel l s = (r, s') -> wf s ->
-  only_extends s s' /\ forall c, r = Ok c -> copy_rel (st_heap s) (st_heap s') l c /\ c < hnext (st_heap s').
+  only_extends s s' /\
+  forall c, r = Ok c -> copy_rel (hnext (st_heap s)) (st_heap s') l c /\ c < hnext (st_heap s').
 Proof.
   induction fuel as [|f IH]; intros l s r s' H W; simpl in H.
   { apply fail_inv in H; destruct H as [-> ->]. split; [apply only_extends_refl; auto | discriminate]. }
@@ -697,18 +700,20 @@ Proof.
   destruct v.
   1-3: apply alloc_inv in H; destruct H as [-> ->]; split; [apply only_extends_alloc; auto|];
        intros c E; inversion E; subst; clear E; split;
-       [eapply cr_basic; eauto; [lia | apply hget_halloc_new] | simpl; lia].
+       [eapply cr_basic; [apply hget_halloc_old; eauto | reflexivity | lia | apply hget_halloc_new]
+       | simpl; lia].
   - apply bind_inv in H. destruct H as [(i' & s1 & H1 & H) | (e & H1 & ->)];
       destruct (IH _ _ _ _ H1 W) as [X1 X2]; [|split; [auto|discriminate]].
     destruct (X2 _ eq_refl) as [C L]. destruct X1 as (E1 & W1 & E3).
     apply alloc_inv in H; destruct H as [-> ->]. split.
     + eapply only_extends_trans; [split; [exact E1|split; [exact W1|exact E3]]|apply only_extends_alloc; auto].
     + intros c E; inversion E; subst; clear E. split; [|simpl; lia].
-      eapply cr_any; eauto.
+      eapply cr_any.
+      * apply hget_halloc_old; [exact W1|]. apply E1. exact Hg.
       * destruct E1; lia.
       * apply hget_halloc_new.
       * lia.
-      * eapply copy_rel_mono; [apply heap_extends_halloc; exact W1 | exact C].
+      * eapply copy_rel_mono; [|apply heap_extends_halloc; exact W1 | exact C]. lia.
   - apply ret_inv in H; destruct H as [-> ->]. split; [apply only_extends_refl; auto|].
     intros c E; inversion E; subst. split; [eapply cr_comp; eauto | eapply wf_alloc_lt; eauto].
   - apply ret_inv in H; destruct H as [-> ->]. split; [apply only_extends_refl; auto|].
@@ -718,8 +723,8 @@ Qed.
 
 (* the result is either a cell that did not exist, or the (non-basic) argument itself *)
 Lemma copy_rel_fresh_or_same h h' l c :
-  fresh_ok h -> copy_rel h h' l c ->
-  hget h c = None \/ (c = l /\ exists v, hget h l = Some v /\ is_composite v = true).
+  fresh_ok h -> copy_rel (hnext h) h' l c ->
+  hget h c = None \/ (c = l /\ exists v, hget h' l = Some v /\ is_composite v = true).
 Proof. intros W C. destruct C; [left; apply W; auto | right; eauto | left; apply W; auto]. Qed.
 
 (* val = copyOrRef(val); scope.update(name, val) — for EVERY name, err and errmsg included:
@@ -744,12 +749,13 @@ Proof.
     [|split; [auto | discriminate]].
   split; [|intros ? E; inversion E; subst; auto].
   intro W. destruct (I1 W) as [W2 R12]. split; [exact W2|].
-  destruct (copy_or_ref_spec _ _ _ _ _ C W) as [_ X]. destruct (X _ eq_refl) as [CR _].
+  destruct (copy_or_ref_spec _ _ _ _ _ C W) as [OE X]. destruct (X _ eq_refl) as [CR _].
   apply copy_rel_fresh_or_same in CR; [|exact W].
   destruct R12 as [A1 A2 A3 A4]. constructor; simpl; auto.
   intros x w E Hx Hb.
   assert (x <> v).
   { intro; subst x. destruct CR as [CR | [-> (w' & Hw & Hc)]]; [congruence|].
+    destruct OE as ((_ & OE) & _). apply OE in Hx.
     rewrite Hw in Hx; inversion Hx; subst w'. destruct w; simpl in Hb, Hc; discriminate. }
   assert (Hxv : x <> v) by assumption.
   apply (A4 x w); auto.
